@@ -909,7 +909,13 @@ fn session_case(ctx: &mut Ctx, wsg: &mut CaseWriter, variant: usize) {
         3 => (vec![call_resp("r0", "", "{}"), text_resp("r1")], true, T::auto(), "stateless_empty_name_call_invalid_followup"),
         4 => (vec![call_resp("r0", "no_such_tool", "{}"), text_resp("r1")], false, T::auto(), "unknown_tool_call"),
         // the very first request fails local validation
-        _ => (vec![text_resp("r0")], false, T::new(json!({"type": "function"})), "invalid_tool_choice_first_request"),
+        5 => (vec![text_resp("r0")], false, T::new(json!({"type": "function"})), "invalid_tool_choice_first_request"),
+        // a call the tool_choice bars (refused without running: tool_started + tool_failed built in session.rs)
+        6 => (vec![call_resp("r0", "bash", "{\"command\":\"echo hi\"}"), text_resp("r1")], false, T::specific_function("ls"), "call_barred_by_tool_choice"),
+        // a mutating call: automatic checkpoint frames before the tool frames, workspace lock taken
+        7 => (vec![call_resp("r0", "write", "{\"path\":\"b.txt\",\"content\":\"x\"}"), text_resp("r1")], false, T::auto(), "write_call_with_checkpoint"),
+        // provider answers 500: transport-error frame, then the closing frames
+        _ => (vec![Scripted::http_error(500, "boom")], false, T::auto(), "http_500"),
     };
     let provider = ScriptedProvider::start(script);
     let cfg = ripd::verif::OpenResponsesConfig {
@@ -1325,6 +1331,7 @@ struct Ctx {
     distinct: Distinct,
     oracle_only: bool,
     leaves: u64,
+    t_mark: std::time::Instant,
 }
 impl Ctx {
     /// wall-clock budget used up, or enough violations collected
@@ -1336,7 +1343,14 @@ impl Ctx {
             false
         }
     }
+    /// wall time since the previous mark, booked under `what` (where the quick tier's time goes)
+    fn mark(&mut self, what: &str) {
+        let now = std::time::Instant::now();
+        self.res.bump_by(&format!("wall_ms={what}"), now.duration_since(self.t_mark).as_millis() as u64);
+        self.t_mark = now;
+    }
     fn record(&mut self, case: &Case, leaf: &Leaf, kind: &str) {
+        self.mark(kind);
         self.res.evaluations += 1;
         self.leaves += 1;
         self.res.oracle_checks += 1;
@@ -1492,7 +1506,7 @@ fn main() {
     let budget = if a.thorough() { 1200 } else { 300 };
     let wmx = CaseWriter::new(&a.out.join("mix"), "Model.Frames Model.Log Model.ContStore Model.SessGuard", "check_case_mix", "model_obs_mix", 40).with_base(2_000_000);
     let _ = RUN_CODES.set([calibrate_run(false), calibrate_run(true)]);
-    let mut ctx = Ctx { deadline: std::time::Instant::now() + Duration::from_secs(budget), res, w, wmx, distinct: Distinct::default(), oracle_only: a.oracle_only(), leaves: 0 };
+    let mut ctx = Ctx { deadline: std::time::Instant::now() + Duration::from_secs(budget), res, w, wmx, distinct: Distinct::default(), oracle_only: a.oracle_only(), leaves: 0, t_mark: std::time::Instant::now() };
     ctx.res.notes.push(format!("frames of one run (etype codes): stub {:?}, ls envelope {:?}", run_codes(false), run_codes(true)));
     let mut r = Rng::new(a.seed);
     let thorough = a.thorough();
@@ -1527,15 +1541,24 @@ fn main() {
         setup.push(Setup::Restart);
         let case = Case { setup, actors: vec![vec![Op::Append { t: 4, th: 0 }], vec![Op::Append { t: k, th: 0 }]] };
         exhaustive(&mut ctx, &case, if thorough { 400 } else { 22 }, "exhaustive_cold_counter_first_writers");
+        // sampled schedules as well: the depth-first order varies the LAST decisions first, and a group is
+        // given up when actors block on a lock the harness does not know about
+        for _ in 0..(if thorough { 60 } else { 8 }) {
+            random_leaf(&mut ctx, &case, &mut r, "random_cold_counter_first_writers");
+        }
     }
     {
         let setup = vec![Setup::Msg { th: 0 }, Setup::Run { th: 0 }, Setup::Branch { th: 0 }, Setup::Restart];
         let case = Case { setup, actors: vec![vec![Op::Append { t: 4, th: 0 }], vec![Op::Append { t: 4, th: 0 }], vec![Op::Append { t: 13, th: 0 }, Op::Append { t: 4, th: 1 }]] };
         exhaustive(&mut ctx, &case, if thorough { 600 } else { 40 }, "exhaustive_cold_counter_first_writers");
+        for _ in 0..(if thorough { 100 } else { 12 }) {
+            random_leaf(&mut ctx, &case, &mut r, "random_cold_counter_first_writers");
+        }
     }
     for k in 0..(if thorough { 40 } else { 6 }) {
         if !ctx.stop() {
             cold_counter_stress(&mut ctx, a.seed * 1000 + k);
+            ctx.mark("cold_counter_stress");
         }
     }
 
@@ -1559,6 +1582,7 @@ fn main() {
     for k in 0..(if thorough { 12 } else { 2 }) {
         if !ctx.stop() {
             task_stress(&mut ctx, if thorough { 400 } else { 150 }, a.seed * 100 + k);
+            ctx.mark("task_stress");
         }
     }
 
@@ -1591,14 +1615,16 @@ fn main() {
     for k in 0..(if thorough { 30 } else { 4 }) {
         if !ctx.stop() {
             router_mix(&mut ctx, a.seed * 100 + k);
+            ctx.mark("router_mix");
         }
     }
 
     // ---- run (session) streams driven by provider scripts, incl. requests that fail local validation
     let mut wsg = CaseWriter::new(&a.out.join("sg"), "Model.Frames Model.Log Model.ContStore Model.SessGuard", "check_case_sg", "model_obs_sg", 40).with_base(1_000_000);
-    for v in 0..6 {
+    for v in 0..9 {
         if !ctx.stop() {
             session_case(&mut ctx, &mut wsg, v);
+            ctx.mark("session_scripts");
         }
     }
 
@@ -1607,11 +1633,13 @@ fn main() {
     for (n, tool) in [(2usize, false), (3, false), (4, true), (2, true)] {
         if !ctx.stop() {
             session_race(&mut ctx, &mut wsg, n, true, if thorough { 12 } else { 3 }, tool);
+            ctx.mark("session_inputs_stepped");
         }
     }
     for (n, rounds, tool) in [(2usize, 60u32, false), (4, 20, false), (3, 20, true)] {
         if !ctx.stop() {
             session_race(&mut ctx, &mut wsg, n, false, if thorough { rounds * 6 } else { rounds }, tool);
+            ctx.mark("session_inputs_raced");
         }
     }
 
